@@ -6,13 +6,14 @@ package core
 // sequential execution, and every block whose access list differs from the true
 // one is rejected.
 //
-// Space: every ordered selection of 2 (and 3) transactions from an alphabet of
+// Space: every ordered selection of 0-2 (and 3) transactions from an alphabet of
 // interacting transactions (shared senders with consecutive nonces, a sender that
 // is only solvent after an earlier transaction funded it, read/write/restore
 // conflicts on one storage slot, CREATE2 followed by a call of the created
 // contract, self-destruct + funding, EIP-7702 delegation followed by a call of the
 // delegated account, coinbase payments, system-contract reads and a withdrawal
-// request) becomes one Amsterdam block, built by the sequential chain maker.
+// request) becomes one Amsterdam block: the sequential processor executes the
+// selection on genesis and the header is completed from that execution.
 //
 // Oracle A (differential, schedule independent): the block is executed by the
 // sequential processor and by the parallel processor (workers run free) under
